@@ -282,18 +282,23 @@ def gen_mutate(rng, profile):
                 # a Match of a list item used as data source after an earlier item was removed through another Match: the
                 # search starts from the node the Match holds, not from what now sits at its old index
                 lists = [l for l in locations(doc) if isinstance(node_at(doc, l), list) and len(node_at(doc, l)) >= 2 and l]
+                rich = [l for l in lists if any(isinstance(x, (dict, list)) and x for x in node_at(doc, l)[1:])]
+                lists = rich or lists
                 if lists:
                     ll = rng.choice(lists)
                     lst = node_at(doc, ll)
                     j = rng.randrange(1, len(lst))
+                    full = [x for x in range(1, len(lst)) if isinstance(lst[x], (dict, list)) and lst[x]]
+                    if full and rng.random() < 0.8:
+                        j = rng.choice(full)        # an item that is a non-empty container: there is something below it
                     base = [["k", nm] if isinstance(nm, str) else ["i", nm] for nm in ll]
                     inner = [["k", rng.choice(list(lst[j].keys()))]] if isinstance(lst[j], dict) and lst[j] else \
                         ([["i", 0]] if isinstance(lst[j], list) and lst[j] else [["k", "a"]])
                     vv = rng.random()
-                    if vv < 0.4:
+                    if vv < 0.3:
                         script = [["h.new", 0, base + [["i", j]], 0], ["h.new", 1, base + [["i", rng.randrange(0, j)]], 0], ["h.pop", 1, ["none"]],
                                   ["h.mpop", 0, inner], ["h.data", 0]]
-                    elif vv < 0.7:
+                    elif vv < 0.75:
                         # … then climbing from a Match below the shifted item: the parent step leads to the node the
                         # Match was found in, not to what now sits at its old index
                         deep = base + [["i", j]] + (inner if isinstance(lst[j], (dict, list)) and lst[j] else [])
